@@ -159,14 +159,18 @@ structure NumText where
 deriving DecidableEq, Repr
 
 /-- well-formed: the parsers agree with the text's value and with the machine ranges -/
-def NumText.wf (t : NumText) : Prop :=
-  (∀ u, t.uintOk = some u → t.val = (u : Rat) ∧ (u : Int) < two64 ∧ t.neg = false) ∧
-  (∀ i, t.intOk = some i → t.val = (i : Rat) ∧ -two63 ≤ i ∧ i < two63) ∧
-  (t.neg = true → t.val ≤ 0)
+def NumText.wfb (t : NumText) : Bool :=
+  (match t.uintOk with
+    | some u => decide (t.val = (u : Rat)) && decide ((u : Int) < two64) && !t.neg
+    | none => true) &&
+  (match t.intOk with
+    | some i => decide (t.val = (i : Rat)) && decide (-two63 ≤ i) && decide (i < two63)
+    | none => true) &&
+  (!t.neg || decide (t.val ≤ 0))
 
-instance (t : NumText) : Decidable t.wf := by
-  unfold NumText.wf
-  cases t.uintOk <;> cases t.intOk <;> simp <;> infer_instance
+def NumText.wf (t : NumText) : Prop := t.wfb = true
+
+instance (t : NumText) : Decidable t.wf := inferInstanceAs (Decidable (t.wfb = true))
 
 /-- `getFloatTypeAndVal` + the SS_UINT8 / SS_FLOAT64 cases of `enclosureFromJsonNumber`: a float that is 0 is
 typed SS_UINT8 (with the still-zero `uintVal`), any other float is a FLOAT literal -/
@@ -320,15 +324,16 @@ inductive SVal where
   | backfill
 deriving DecidableEq, Repr
 
-def SVal.wf : SVal → Prop
-  | .int i => -two63 ≤ i ∧ i < two63
-  | .uint n => (n : Int) < two64
-  | .float b => finiteBits b = true
-  | .str s => s.length < 65536
-  | _ => True
+def SVal.wfb : SVal → Bool
+  | .int i => decide (-two63 ≤ i) && decide (i < two63)
+  | .uint n => decide ((n : Int) < two64)
+  | .float b => finiteBits b
+  | .str s => decide (s.length < 65536)
+  | _ => true
 
-instance : DecidablePred SVal.wf := fun v => by
-  cases v <;> unfold SVal.wf <;> infer_instance
+def SVal.wf (v : SVal) : Prop := v.wfb = true
+
+instance (v : SVal) : Decidable v.wf := inferInstanceAs (Decidable (v.wfb = true))
 
 def SVal.toTlv : SVal → Val
   | .int i => .num .i64 (wrapU64 i)
@@ -377,6 +382,11 @@ def Lit.num? (q : Lit) : Option Rat :=
   | .unsigned => some (q.unsigned : Rat)
   | .float => some q.flt
   | _ => none
+
+/-- the number the literal `mkLit rnd t` denotes, in terms of the text: integer branches of
+`GetNumberTypeAndVal` keep the exact integer, every other text denotes the float64 it parses to -/
+def litVal (rnd : Rat → Rat) (t : NumText) : Rat :=
+  if (t.neg && t.intOk.isSome) || (!t.neg && t.uintOk.isSome) then t.val else rnd t.val
 
 /-- SPECIFICATION of a comparison against a numeric literal: by VALUE, independent of how the stored number or
 the literal is typed or spelled; a value that is not a number satisfies only `!=`. -/
